@@ -1205,6 +1205,58 @@ theorem metadata_params_shape (cs : Bool) (it : List Char) (fl : List Param) :
         ["retry".toList, "timeout".toList, "metadata".toList] := by
   cases cs <;> simp [metadataParams, tailParams]
 
+/-- `metadata_flattened_names_are_leaf_names`: for a method signature with dotted paths the metadata lists, after
+    `request`, the LEAF field names (reserved words suffixed) in signature order — the names of the emitted client
+    method's keyword parameters — then `retry, timeout, metadata`. -/
+theorem metadata_flattened_names_are_leaf_names (reserved : List Char → Bool) (it : List Char)
+    (sig : List (List (List Char) × List Char)) :
+    (metadataParams false it (flattenedParams reserved sig)).map (·.name) =
+      "request".toList :: sig.map (fun e => flattenedName reserved e.1) ++
+        ["retry".toList, "timeout".toList, "metadata".toList] := by
+  simp [metadataParams, tailParams, flattenedParams, List.map_map, Function.comp_def]
+
+section Aux
+theorem dot_mem_joinDots (a b : List Char) (rest : List (List Char)) : '.' ∈ joinDots (a :: b :: rest) := by
+  simp [joinDots]
+
+theorem suffixed_no_dot (reserved : List Char → Bool) (seg : List Char) (h : '.' ∉ seg) : '.' ∉ suffixed reserved seg := by
+  unfold suffixed
+  split
+  · simp [h]
+  · exact h
+end Aux
+
+/-- the leaf name is never the key once the path is dotted (field names contain no `.`): a metadata entry that wrote the
+    mapping key would name a parameter the client method does not have; for a top-level entry the two coincide -/
+theorem flattened_name_ne_key (reserved : List Char → Bool) (a b : List Char) (rest : List (List Char))
+    (hnd : ∀ seg ∈ a :: b :: rest, '.' ∉ seg) :
+    flattenedName reserved (a :: b :: rest) ≠ flattenedKey reserved (a :: b :: rest) := by
+  intro h
+  have hk : '.' ∈ flattenedKey reserved (a :: b :: rest) := by
+    simp only [flattenedKey, List.map_cons]
+    exact dot_mem_joinDots _ _ _
+  have hlast : ∃ seg ∈ a :: b :: rest, (a :: b :: rest).getLast?.getD [] = seg := by
+    cases hl : (a :: b :: rest).getLast? with
+    | none => simp at hl
+    | some x => exact ⟨x, List.mem_of_getLast? hl, rfl⟩
+  obtain ⟨seg, hm, he⟩ := hlast
+  have hn : '.' ∉ flattenedName reserved (a :: b :: rest) := by
+    unfold flattenedName
+    rw [he]
+    exact suffixed_no_dot reserved seg (hnd seg hm)
+  exact hn (h ▸ hk)
+
+theorem flattened_name_eq_key_top_level (reserved : List Char → Bool) (a : List Char) :
+    flattenedName reserved [a] = flattenedKey reserved [a] := by
+  simp [flattenedName, flattenedKey, joinDots]
+
+example : let res := fun s => decide (s ∈ GapicModel.Pinned.reservedNames.map String.toList)
+    (flattenedKey res ["book".toList, "class".toList] = "book.class_".toList ∧
+     flattenedName res ["book".toList, "class".toList] = "class_".toList ∧
+     flattenedKey res ["folio".toList, "next".toList, "note".toList] = "folio.next_.note".toList ∧
+     flattenedName res ["folio".toList, "next".toList, "note".toList] = "note".toList) := by
+  decide +kernel
+
 /-! ### result type of the metadata entry -/
 
 section Aux
